@@ -39,7 +39,7 @@ RULE = (
     "stand-alone tasks when there is none), and the call returns. Facets concurrent(-enum): 2-3 threads log typed "
     "messages, some with failing serializers, through the shared default Logger under line-level schedules (generated "
     "plans and every single preemption), either each with its own type or all through one freshly defined type whose first "
-    "uses race (then eliot/_validation.py is scheduled too): every failing message gets its own traceback + "
+    "uses race (then eliot/_validation.py is scheduled too; source-line and bytecode-instruction granularity): every failing message gets its own traceback + "
     "serialization_failure, every healthy one is delivered once with every field serialized exactly once. The typed facet "
     "also registers exception extractors (returning fields such as code/reason/detail) for the classes failing serializers raise. Non-trivial: a non-idempotent serializer on a value with "
     "f(f(v)) != f(v), or a fault on a start/end message. Distinct = canonical JSON of the case."
@@ -592,7 +592,7 @@ def check_concurrent(case):
 
             return run
 
-        s = sched.Scheduler(("eliot/_output.py", "eliot/_validation.py") if shared else ("eliot/_output.py",), plans_)
+        s = sched.Scheduler(("eliot/_output.py", "eliot/_validation.py") if shared else ("eliot/_output.py",), plans_, opcodes=bool(case.get("opcodes")))
         s.run([worker(i, specs) for i, specs in enumerate(case["threads"])])
     finally:
         Logger._destinations = saved
@@ -633,6 +633,7 @@ def classify_concurrent(case, info):
         labels.append("preempted-inside-write")
     if case.get("shared"):
         labels.append("one-type-shared-by-threads")
+    labels.append("granularity:bytecode" if case.get("opcodes") else "granularity:line")
     return (info["faults"] >= 2 or bool(case.get("shared"))) and info["switch_inside"] >= 1, labels
 
 
@@ -640,7 +641,8 @@ def concurrent_strategy():
     from .. import sched
 
     return st.builds(
-        lambda shared, plan, threads: {"shared": shared, "plan": plan, "threads": threads},
+        lambda opc, shared, plan, threads: sched.with_granularity({"shared": shared, "plan": plan, "threads": threads}, opc),
+        st.sampled_from([False, False, True]),
         st.booleans(),
         sched.plans(max_segments=10, max_steps=40, workers=3),
         st.lists(st.lists(st.booleans(), min_size=1, max_size=2), min_size=2, max_size=3),
@@ -658,6 +660,9 @@ def concurrent_enum_runner(mod, facet, tier, seed, shard, nshards, stats):
     for threads in ([[False], [False]], [[False, True], [False]]):
         for plan in sched.single_preemption_plans(2, 70):
             cases.append({"shared": True, "plan": plan, "threads": threads})
+    # bytecode granularity: first use of one type by two threads, thread 0 preempted before every instruction
+    for k in range(0, 500 if tier == "thorough" else 300):
+        cases.append({"opcodes": True, "shared": True, "plan": [[k, 0], [10**6, 1]], "threads": [[False], [False]]})
     stats.extra["enumerated_plans"] = len(cases)
     enumerate_cases(mod, facet, cases, shard, nshards, stats, exhaustive=True)
 
